@@ -1,2 +1,3 @@
+import Driver.Layout
 import Driver.Paginate
 import Driver.Util
